@@ -56,11 +56,13 @@ CLAIMS = {
              "the modelled eval of a derived point / expression / constraint / LMI is the same linear / bilinear combination "
              "of its operands' values (objects built after the solve included); if the leaf vectors reproduce G+ the value is "
              "the Gram reading the solver saw; leaf i gets column i / entry i; at a point optimal in tau the objective equals "
-             "the smallest metric. (The former finding F-C02a - eval after a new leaf point raised - was repaired by a fix: commit; "
+             "the smallest metric; from the SPECIFICATIONS of numpy's eigh and qr, for the factorisation plan regenerated from pep.py, the "
+             "columns of the evaluated leaf points have the inner products of the PSD projection of G (C02_factor_reproduces_projection, "
+             "C02_projection_psd, _is_identity_on_psd, _error_bound). (The former finding F-C02a - eval after a new leaf point raised - was repaired by a fix: commit; "
              "the narrow remainder F-C02b, the dimension of the EMPTY combination, is a listed finding.) Tie: random programs run on the real code with an injected rational solution "
              "(fake wrapper registered from outside), values compared with the model; real SCS instances measured.",
         ref="DESIGN.md 5.2",
-        note="numpy eigh / clipping / QR are trusted and measured (P^T P vs G+); solver optimality is an explicit hypothesis "
+        note="numpy eigh / QR meet their specifications up to rounding: trusted and measured (P^T P vs G+); solver optimality is an explicit hypothesis "
              "of the objective clause; primal <= dual is C01's weak duality",
         technique="Coq proof (induction over decompositions; refutation witness) + injected-solution correspondence"),
     "C03": dict(
@@ -101,7 +103,8 @@ CLAIMS = {
              "add_point / combine operation, hence after every op sequence, under a decidable guard (no zero weight after "
              "merging, i.e. the composite is not the zero function, no explicit zero coefficient in a query point; cancelling "
              "weights are covered since the fix: commit 5162ea4); without the guard it is refuted with witnesses (findings "
-             "F-C07b,c,d,e). Tie: exhaustive short and random long op sequences compared exactly with the model. The shipped class constructors are tied to the model's reuse rule (forced flags regenerated from the sources in Gen/Classes.v); query points are terms compiled by the Point-algebra model and the tie checks on every call that the implementation's decomposition is that normal form.",
+             "F-C07b,c,d,e); every primitive-step program is a sequence of these operations and preserves the invariant on leaf and "
+             "composite functions (C07_inv_step_program). Tie: exhaustive short and random long op sequences compared exactly with the model. The shipped class constructors are tied to the model's reuse rule (forced flags regenerated from the sources in Gen/Classes.v); query points are terms compiled by the Point-algebra model and the tie checks on every call that the implementation's decomposition is that normal form.",
         ref="DESIGN.md 5.7",
         note="object aliasing is not observable in the dumps (only mutation is the idempotent prune); steps call add_point "
              "on not-yet-recorded points (scoping guard)",
@@ -160,7 +163,9 @@ CLAIMS = {
              "++ per leaf function class constraints/LMIs ++ per function own constraints/LMIs ++ partition constraints, "
              "each with its declared multiplicity and sense and nothing else; max of tau under tau<=m_k is the min of "
              "metrics. Ties: translator (collection order) + exact correspondence on the two translation functions, on "
-             "recorded send sequences of random programs and on the rows of the real cvxpy problem.",
+             "recorded send sequences of random programs and on the rows of the real cvxpy problem; the MOSEK emission (Task calls of the "
+             "real MosekWrapper on a recording stand-in) is compared with Model/Mosek.v, whose calls denote the declared SDP "
+             "(C05_mosek_task_is_declared_sdp, C05_mosek_rows_meaning = C11's theorems).",
         ref="DESIGN.md 5.5",
         note="MOSEK's symmetric-storage reading of triples is an assumption (shared with C11); cvxpy's own "
              "canonicalisation is trusted",
@@ -195,16 +200,21 @@ CLAIMS = {
              "specification of the documented relation, in both directions (nothing stronger or weaker); real executions "
              "(prox of a convex function, inexact gradient, exact line search of a differentiable function, linear "
              "minimisation over a set, Bregman steps, epsilon-subgradient under conjugate attainment) satisfy what is "
-             "recorded, and conversely. Tie: translator + exact correspondence of real step calls with the interpreter.",
+             "recorded, and conversely; the same generated programs run over C07's function table (Model/StepsFunc.v): every step, every "
+             "option, on ANY function (leaf or weighted sum) preserves C07's invariant, the sample recorded on a composite is the "
+             "weighted sum of samples of its terms, and on leaf functions both interpreters agree. Tie: translator + exact "
+             "correspondence of real step calls (on leaf and on composite functions) with the interpreters.",
         ref="DESIGN.md 5.8",
-        note="composite functions are outside the Coq model of the steps (C07 covers the distribution); real=>recorded for "
+        note="the documented-relation (_records/_exact/_real) theorems are over leaf functions and transfer to composites through the "
+             "agreement + weighted-sum theorems under the decidable guard ok_prog (C07's side conditions); real=>recorded for "
              "epsilon-subgradient / inexact prox is conditional on conjugate attainment (partial); functions on E are assumed "
              "to respect veq",
         technique="Coq proof over programs regenerated from the source (symbolic execution + real analysis lemmas) + "
                   "correspondence"),
     "C09": dict(
-        text="Coq theorems: running any well-formed recorded method - free points, stationary points, oracle calls, proximal, "
-             "linear-optimisation, inexact-gradient and line-search steps, any length - in any world of real oracles makes "
+        text="Coq theorems: running any well-formed recorded method - free points, stationary points, oracle calls and all eight "
+             "primitive steps (proximal, linear-optimisation, inexact-gradient, line-search, epsilon-subgradient, Bregman gradient, "
+             "Bregman proximal, inexact proximal with its three options), any length - in any world of real oracles makes "
              "every recorded sample genuine, every recorded step constraint true, and never changes free leaves; composed with "
              "C03 over the class plans REGENERATED from the sources (22 classes) every generated class constraint holds at the "
              "run's values; the Gram matrix of a real valuation is a feasible point, so with C01's weak duality every real run "
